@@ -211,6 +211,8 @@ pub struct PEntry {
     pub name: Option<Vec<u16>>,
     pub alt: Option<Vec<u16>>,
     pub run_len: usize,
+    /// case-flags byte (offset 12) of the short entry
+    pub nt: u8,
 }
 
 /// Parse a slot array like a specification-conforming reader. `loose_attr`: treat any attribute byte
@@ -251,7 +253,7 @@ pub fn parse_slots(slots: &[[u8; 32]], loose_attr: bool, ord_mask: u8) -> Vec<PE
             continue;
         }
         let (verdict, name, alt) = judge_run_masked(&run, &sfn, ord_mask);
-        out.push(PEntry { sfn, attr, slot: i, verdict, name, alt, run_len: run.len() });
+        out.push(PEntry { sfn, attr, slot: i, verdict, name, alt, run_len: run.len(), nt: s[12] });
         run.clear();
     }
     out
@@ -263,6 +265,8 @@ pub struct Got {
     pub short: Vec<u8>,
     pub long: Option<Vec<u16>>,
     pub attr: u8,
+    /// (file_name(), short_file_name()) where the build has them (dynamic allocation)
+    pub names: Option<(String, String)>,
 }
 
 /// Does the reader's output match the parse under one reading?
@@ -273,6 +277,21 @@ pub fn matches_reading(exp: &[PEntry], got: &[Got]) -> Result<(), String> {
     for (e, g) in exp.iter().zip(got) {
         if short_bytes(&e.sfn) != g.short {
             return Err(format!("entry at slot {}: short name {:?} vs {:?}", e.slot, g.short, short_bytes(&e.sfn)));
+        }
+        // the string accessors: short_file_name() is the 8.3 name as stored; file_name() is the long name the reader
+        // returned (decoded lossily) or, without one, the 8.3 name with the case flags applied
+        if let Some((fname, sname)) = &g.names {
+            let want_s = short_display(&e.sfn, 0);
+            if *sname != want_s {
+                return Err(format!("entry at slot {}: short_file_name() text {sname:?}, stored bytes say {want_s:?}", e.slot));
+            }
+            let want_f = match &g.long {
+                Some(l) => String::from_utf16_lossy(l),
+                None => short_display(&e.sfn, e.nt),
+            };
+            if *fname != want_f {
+                return Err(format!("entry at slot {}: file_name() text differs from the units returned / the 8.3 name ({} vs {} characters)", e.slot, fname.chars().count(), want_f.chars().count()));
+            }
         }
         match (&e.verdict, &g.long) {
             (Lfn::None, None) | (Lfn::Broken(_), None) => {}
@@ -426,7 +445,7 @@ pub fn family6_case(len: usize, mut idx: u64) -> Vec<[u8; 32]> {
             4 => lfn(0x02, right),
             5 => lfn(0x01, right),
             6 => lfn(0x02, right.wrapping_add(0x35)),
-            7 => lfn(0x00, right),
+            7 => lfn(0x40, right),
             8 => lfn(21, right),
             9 => {
                 let mut d = mk_sfn_slot(&SFN_B, 0x20, 0, 0);
@@ -467,6 +486,19 @@ pub fn special_cases() -> Vec<(String, Vec<[u8; 32]>)> {
         s.push(mk_sfn_slot(&SFN_A, 0x20, 0, 0));
         v.push((format!("proper-run-{len}-units"), s));
     }
+    // proper runs of non-ASCII text: 2- and 3-byte characters up to the 255-unit limit, a valid surrogate pair
+    for (tag, unit, n) in [("e-acute", 0x00E9u16, 128usize), ("e-acute", 0x00E9, 255), ("cjk", 0x4E2D, 100), ("cjk", 0x4E2D, 255)] {
+        let units: Vec<u16> = vec![unit; n];
+        let mut s = mk_lfn_run(&units, &SFN_A);
+        s.push(mk_sfn_slot(&SFN_A, 0x20, 0, 0));
+        v.push((format!("proper-run-{n}-units-of-{tag}"), s));
+    }
+    {
+        let units: Vec<u16> = vec![0x61, 0xD83D, 0xDE00, 0x62, 0xD83D, 0xDE00];
+        let mut s = mk_lfn_run(&units, &SFN_A);
+        s.push(mk_sfn_slot(&SFN_A, 0x20, 0, 0));
+        v.push(("proper-run-with-surrogate-pairs".into(), s));
+    }
     // a proper run of n slots in which one slot (any position) is marked deleted
     for n in 1..=7usize {
         let units: Vec<u16> = (0..n * 13 - 3).map(|i| 0x61 + (i % 26) as u16).collect();
@@ -491,7 +523,7 @@ pub fn special_cases() -> Vec<(String, Vec<[u8; 32]>)> {
             ("deleted-short-entry", del_sfn),
             ("deleted-long-name-slot", del_lfn),
             ("volume-label", mk_sfn_slot(b"A LABEL    ", 0x08, 0, 0)),
-            ("long-name-slot-index-0", mk_lfn_slot(0x00, sum, &[0x42; 13], 0x0F, 0, 0)),
+            ("long-name-slot-index-0", mk_lfn_slot(0x40, sum, &[0x42; 13], 0x0F, 0, 0)),
             ("long-name-slot-index-21", mk_lfn_slot(21, sum, &[0x43; 13], 0x0F, 0, 0)),
         ];
         for p in 1..=n {
